@@ -62,6 +62,8 @@ def main():
                                '4'], cwd=wt, env=env, timeout=3000)
                 out['pytest_patched'] = {'rc': rc, 'wall': round(t, 1),
                                          'tail': o[-300:]}
+                with open(os.path.join(src, 'pytest.json'), 'w') as f:
+                    json.dump(out['pytest_patched'], f)
             # run the check against the patched tree, keep the evidence file of
             # the unchanged tree
             evp = os.path.join(ROOT, 'evidence', f'{prop}.json')
@@ -77,6 +79,10 @@ def main():
                             'lines': lines[:6]}
             if keep is not None:
                 open(evp, 'w').write(keep)
+        pj = os.path.join(src, 'pytest.json')
+        if 'pytest_patched' not in out and os.path.exists(pj):
+            out['pytest_patched'] = json.load(open(pj))
+            do_pytest = True
         out['confirmed'] = bool(
             out.get('demo_clean', {}).get('rc') == 0 and
             out.get('demo_patched', {}).get('rc', 0) != 0 and
